@@ -22,6 +22,7 @@ DOC = {
         'C05.R6': 'run_script counts only successes: Result<FileLen> is turned into a count only through filter_map(Result::ok)',
         'C05.R7': 'error discipline: no io::Result in dedupe.rs/reflink.rs/lock.rs is discarded (named exceptions)',
         'C05.R8': 'the temporary is a sibling: temp_file derives from path.parent() and path.file_name()',
+        'C05.R9': 'the primitive wrappers are what their callers assume: remove = remove_file(path); unsafe_rename = rename(source, target); unsafe_copy = copy(source, target); hardlink = hard_link(target, link); symlink_internal = symlink(target, link); mkdirs = create_dir_all(path); each is the only mutating primitive in its wrapper and its error is returned',
     },
     'not_decided': 'atomicity of rename(2)/link(2) themselves; double faults beyond "roll-back failure is logged"; what a kill between two syscalls leaves on a real file system',
     'assumptions': ['std::fs::rename / hard_link / symlink are atomic with respect to crashes'],
@@ -40,6 +41,7 @@ def run(ctx):
     r6(ctx, lib)
     r7(ctx, lib)
     r8(ctx, lib)
+    r9(ctx, lib)
 
 
 def role(body, op, tmp_rx=r'FsCommand::temp_file$'):
@@ -383,3 +385,39 @@ def r8(ctx, lib):
     # random suffix present
     rnd = sl.has_call(r'rand::|uuid::')
     ctx.check(rnd, rule, b.path + '|random', b.where(), 'random suffix', 'no random component in the temporary name')
+
+
+WRAPPERS = {
+    'dedupe::FsCommand::remove': (r'^std::fs::remove_file$', [1]),
+    'dedupe::FsCommand::unsafe_rename': (r'^std::fs::rename$', [1, 2]),
+    'dedupe::FsCommand::unsafe_copy': (r'^std::fs::copy$', [1, 2]),
+    'dedupe::FsCommand::hardlink': (r'^std::fs::hard_link$', [1, 2]),
+    'dedupe::FsCommand::symlink_internal': (r'^std::os::unix::fs::symlink$', [1, 2]),
+    'dedupe::FsCommand::mkdirs': (r'^std::fs::create_dir_all$', [1]),
+}
+
+
+def r9(ctx, lib):
+    rule = 'C05.R9'
+    from ..callgraph import sink_kind
+    for fn, (rx, params) in sorted(WRAPPERS.items()):
+        b = ctx.need_body(rule, fn)
+        if b is None:
+            continue
+        bodies = [b] + [lib.body(p) for p in lib.closures_of(b.path)]
+        sinks = [(x, c) for x in bodies for c in x.calls() if sink_kind(c) and not c.f.get('local')]
+        prim = [(x, c) for x, c in sinks if c.matches(rx)]
+        ok = len(sinks) == 1 and len(prim) == 1
+        why = 'mutating primitives in the wrapper: %s' % [c.path for _, c in sinks]
+        if ok:
+            x, c = prim[0]
+            for i, pnum in enumerate(params):
+                sl = backslice(x, [c.args[i]])
+                if sl.params != {pnum}:
+                    ok = False
+                    why = 'argument %d of %s derives from parameter(s) %s, expected parameter %d' % (i, c.path.rsplit('::', 1)[-1], sorted(sl.params), pnum)
+            cat, det = err_handling(x, c)
+            if ok and cat not in ('PROPAGATED', 'RETURNED', 'ERR-RETURNED'):
+                ok = False
+                why = 'the primitive\'s error is %s' % cat
+        ctx.check(ok, rule, fn, b.where(), '%s(%s), error returned' % (rx.strip('^$').split('::')[-1], ', '.join('arg%d' % p for p in params)), why)
